@@ -404,3 +404,29 @@ class FragExpiryProbe(Monitor):
         how = "idle" if all(p[6].startswith("idle") for p in mine) else "while-progressing"
         return "cause=receiver-purged-incomplete-fragment-context:" + how, \
             [(round(p[0], 3), p[2], p[3], p[4], round(p[5], 3), p[6]) for p in mine[:4]]
+
+
+class PoolGuard(Monitor):
+    """Server pools: the connection object (hence key and token) bound to an address that is in the middle of a
+    handshake may only change by promotion, by its own timeout, or after a disconnect - never because some other
+    (unauthenticated or duplicated) datagram arrived."""
+
+    def attach(self, world):
+        self.w = world
+        self.prev_temp = {}
+
+    def on_tick(self):
+        w = self.w
+        cur = dict(w.ctxt.temp_connections)
+        for addr, old in self.prev_temp.items():
+            new = cur.get(addr)
+            if new is old or not old.session_key_bytes:
+                continue
+            promoted = w.ctxt.connections.get(addr) is old
+            age = old.clock() - old.last_recv_time
+            timed_out = age >= (w.ctxt.temp_connection_timeout or 2.0) * 0.95
+            if not promoted and not timed_out and old.status.value != ConnectionStatus.DISCONNECTED.value:
+                w.violation("keyed_pending_connection_replaced_without_authentication",
+                            {"addr": addr, "age_of_old": round(age, 4), "replaced_by_new_object": new is not None},
+                            key="replaced" if new is not None else "removed")
+        self.prev_temp = cur
